@@ -114,7 +114,9 @@ def der_time(t):
 
 
 ATTR_OID = dict(CN='2.5.4.3', O='2.5.4.10', OU='2.5.4.11', C='2.5.4.6', L='2.5.4.7', ST='2.5.4.8',
-                SN='2.5.4.5', E='1.2.840.113549.1.9.1', DC='0.9.2342.19200300.100.1.25')
+                SN='2.5.4.5', E='1.2.840.113549.1.9.1', DC='0.9.2342.19200300.100.1.25',
+                # neighbours of commonName: one arc more, one arc less, last arc +128 (same low 7 bits)
+                CNX='2.5.4.3.1', CNP='2.5.4', CNH='2.5.4.131')
 
 
 def der_dn(dn):
